@@ -22,7 +22,7 @@ PROPS = {
         "level": "model_checking",
         "engine": "explore (bounded-exhaustive enumeration)",
         "technique": "bounded-exhaustive enumeration of raw wire envelopes, pairs, batch compositions and handler completion orders against real server sessions on 5 transport configurations, with a per-id response counter over the raw output",
-        "claim": "16 envelope kinds x 11 id tokens (incl. 2^53+1, int64 min/max, empty and non-ASCII strings) as single messages; pairs of envelopes with distinct/equal/type-differing ids; every batch composition of <=3 members over {call, unknown-method call, gated call, notification} with every release order of the gated handlers (2025-03-26); two concurrent gated calls in both completion orders; a duplicate in-flight id: on the in-memory pipe (stdio framing) and the streamable handler stateful/stateless x SSE/JSON, every call gets exactly one response with the identical id token and the mandated class (result, -32601, -32602, -32600 or an HTTP 4xx pre-validation), notifications get none, and a final ping is still answered",
+        "claim": "16 envelope kinds x 11 id tokens (incl. 2^53+1, int64 min/max, empty and non-ASCII strings) as single messages; pairs of envelopes with distinct/equal/type-differing ids; every batch composition of <=3 members over {call, unknown-method call, gated call, notification} with every release order of the gated handlers (2025-03-26); two concurrent gated calls in both completion orders; a duplicate in-flight id; a peer cancellation (notifications/cancelled) of an in-flight call, alone, followed by another call, and inside 2025-03-26 batches with every release order (the cancelled call is still answered exactly once and its batch still completes): on the in-memory pipe (stdio framing) and the streamable handler stateful/stateless x SSE/JSON, every call gets exactly one response with the identical id token and the mandated class (result, -32601, -32602, -32600 or an HTTP 4xx pre-validation), notifications get none, and a final ping is still answered",
         "note": "the legacy HTTP+SSE transport is not driven by this check; messages are single-line JSON; ids outside the listed tokens are outside the bound",
         "parts": [
             {"pkg": "mcp", "mode": "plain", "test": "TestVerifC02", "shards": 16},
@@ -33,7 +33,7 @@ PROPS = {
         "level": "model_checking",
         "uses_vsched": True,
         "technique": "stateless model checking of real client+server sessions under a controlled scheduler: all message sequences (len<=3) x all handler completion orders (gates) x delay-bounded schedules",
-        "claim": "for every sequence of length <=3 over {notification, tool call, ping} client->server and {progress, log, create-message} server->client, with every user handler parked on a gate that an idle-priority controller opens in every order, and every schedule within the deviation budget, the handler of a notification (and of initialized) finishes before any later message's handler starts; a liveness scenario shows calls do overlap",
+        "claim": "for every sequence of length <=3 over {notification, tool call, ping} client->server and {progress, log, create-message} server->client, with every user handler parked on a gate that an idle-priority controller opens in every order, and every schedule within the deviation budget, the handler of a notification (and of initialized) finishes before any later message's handler starts; a raw peer whose slow initialize call has its context ended (notifications/cancelled for it, or a disconnect) followed by a ping / call / notification: the later handler still does not start before the initialize handler finished; a liveness scenario shows calls do overlap",
         "note": "in-memory transport only in this check (HTTP transports are exercised by C02/C10 harnesses); sequences longer than 3 and budgets beyond B are outside the bound",
         "parts": [
             {"pkg": "mcp", "mode": "instr", "test": "TestVerifC03", "two_phase": True},
@@ -89,8 +89,8 @@ PROPS = {
         "level": "model_checking",
         "engine": "explore (choice-tree DFS, sequential)",
         "technique": "exhaustive choice-tree enumeration of listing traversals with interleaved mutations on real client/server sessions (plus bounded enumeration of malformed/stale cursors)",
-        "claim": "for tools, prompts, resources and resource templates x page size 1..3 x all 32 initial subsets of 5 names x every placement of <=2 add/remove/replace mutations in the gaps between page fetches (two in the same gap included): items come in one strictly increasing order, items registered throughout appear exactly once, nothing unregistered is listed, traversal ends with an empty cursor, page size respected; without mutation the exact set is listed and the client iterator yields the same sequence; malformed cursors get -32602 and the server keeps answering; a stale cursor continues after its position",
-        "note": "5 names, page sizes 1..3, <=2 mutations per traversal; sessions are long-lived per (kind,page size), so states are reached from many predecessor states, not only the initial one",
+        "claim": "for tools, prompts, resources and resource templates x page size 1..6 and math.MaxInt x all 32 initial subsets of 5 names x every placement of <=2 add/remove/replace mutations in the gaps between page fetches (two in the same gap included): items come in one strictly increasing order, items registered throughout appear exactly once, nothing unregistered is listed, traversal ends with an empty cursor, page size respected; without mutation the exact set is listed and the client iterator yields the same sequence; malformed cursors get -32602 and the server keeps answering; a stale cursor continues after its position",
+        "note": "5 names, page sizes 1..6 and MaxInt, <=2 mutations per traversal; sessions are long-lived per (kind,page size), so states are reached from many predecessor states, not only the initial one",
         "parts": [
             {"pkg": "mcp", "mode": "plain", "test": "TestVerifC17", "gomaxprocs": 2},
         ],
@@ -100,7 +100,7 @@ PROPS = {
         "level": "model_checking",
         "uses_vsched": True,
         "technique": "stateless model checking of a server with three real sessions under a controlled scheduler with owned timers: bursts x debounce-timer placements (time deviations) x schedules; plus an explicit-state search over subscribe/unsubscribe/update/close histories",
-        "claim": "(E1) legacy session, 2026-07-28 session with a matching subscriptions/listen and one without: for every burst of 1-3 add/remove changes, every placement of the 10ms debounce timer and every schedule within the budget, each entitled session receives a tools/list_changed after the last change whose handler-time tools/list equals the final server state, unentitled sessions and a server with the capability disabled send none, a list after the handled notification is never an older cached answer (TTL 0 and 60s, with a list call in flight across the change), closed sessions leave no subscription; (E2) all histories up to the depth over subscribe/unsubscribe/resource-updated/close for two legacy and one modern session: resources/updated reaches exactly the currently subscribed sessions",
+        "claim": "(E1) legacy session, 2026-07-28 session with a matching subscriptions/listen and one without: for every burst of 1-3 add/remove changes, every placement of the 10ms debounce timer and every schedule within the budget, each entitled session receives a tools/list_changed after the last change whose handler-time tools/list equals the final server state, unentitled sessions and a server with the capability disabled send none, a list after the handled notification is never an older cached answer (TTL 0 and 60s, with a list call in flight across the change), a session whose peer stopped draining or whose transport fails during the fan-out does not deprive the other sessions of their notification (either connection order), closed sessions leave no subscription; (E2) all histories up to the depth over subscribe/unsubscribe/resource-updated/close for two legacy and one modern session: resources/updated reaches exactly the currently subscribed sessions",
         "note": "three sessions, one URI, bursts of <=3 changes; budgets B<=1 (quick) / 2 (thorough)",
         "parts": [
             {"pkg": "mcp", "mode": "instr", "test": "TestVerifC18", "scenario_prefix": "burst/", "two_phase": True},
@@ -153,7 +153,7 @@ PROPS = {
     "C08": {
         "level": "model_checking",
         "technique": "explicit-state search over write/cut/resume histories against the real streamable HTTP handler (served in-process, streaming bodies) with a recording event store as ground truth",
-        "claim": "for a request stream (protocol 2025-06-18 and 2025-11-25 with priming event) and the standalone stream: all histories (exhaustive to the shallow depth, state-deduplicated beyond) over {server writes the next of 3 notifications and the final response, client cuts the attached exchange, client resumes with the id of any event issued so far (5 positions), a second concurrent resume}: every exchange delivers, from its resume point on, exactly the messages appended to the stream in append order with ids stream_k increasing by one, ids denote the same payload on every delivery, an attached exchange is caught up at quiescence, a concurrent resume is refused with 409, and after any history the whole stream (incl. the final response) is obtainable by one more resume",
+        "claim": "for a request stream (protocol 2025-06-18 and 2025-11-25 with priming event) and the standalone stream: all histories (exhaustive to the shallow depth, state-deduplicated beyond) over {server writes the next of 3 notifications and the final response, client cuts the attached exchange, client resumes with the id of any event issued so far (5 positions), a second concurrent resume}: every exchange delivers, from its resume point on, exactly the messages appended to the stream in append order with ids stream_k increasing by one, ids denote the same payload on every delivery, an attached exchange is caught up at quiescence, a concurrent resume is refused with 409, and after any history the whole stream (incl. the final response) is obtainable by one more resume; (E1) a server write racing a resuming GET on the detached stream under the controlled scheduler: the resumed exchange carries exactly the messages appended after its resume point, ids consecutive, payloads in append order",
         "note": "one request stream with 4 messages; purge/eviction of the event store is covered by C20, not here; concurrent Write vs. serveGET interleavings below the request level are not explored (requests are run to quiescence)",
         "parts": [
             {"pkg": "mcp", "mode": "plain", "test": "TestVerifC08", "shards": 1, "gomaxprocs": 16, "time_s": {"quick": 150, "thorough": 1500}, "scenario_prefix": "re"},
@@ -165,7 +165,7 @@ PROPS = {
         "level": "fault_enumeration",
         "engine": "explore (choice-tree DFS over fault points)",
         "technique": "exhaustive fault enumeration on the real streamable client against a scripted RoundTripper under virtual time: every byte offset x termination kind of the first body, then every sequence of reconnect outcomes",
-        "claim": "for POST response streams (with/without event ids, with a priming event, retry budgets 0/1, thorough 2) and the standalone stream: the first SSE body is cut at every byte offset by a read error or a clean end of stream; each reconnect is answered ok / transport error / 503 / 404 / cut again at representative offsets, in every sequence until the client stops: notifications are delivered each once and in order, every Last-Event-ID presented is the id of the last event received completely, a successful call carries the real response and all messages, a failed call is justified (no ids, a 404, or more consecutive failed attempts than the budget), and the call never hangs (10 min virtual time)",
+        "claim": "for POST response streams (with/without event ids, with a priming event, retry budgets 0/1, thorough 2) and the standalone stream: the first SSE body is cut at every byte offset by a read error or a clean end of stream; each reconnect is answered ok / transport error / 503 / 404 / cut again at representative offsets, in every sequence until the client stops: notifications are delivered each once and in order, every Last-Event-ID presented is the id of the last event received completely, a successful call carries the real response and all messages, a failed call is justified (no ids, a 404, MaxRetries consecutive failed attempts within one reconnect, or more than MaxRetries consecutive bodies without a new complete event - the two budgets are counted separately, as documented), and the call never hangs (10 min virtual time)",
         "note": "3-4 events per stream, single-line data; retry budgets above 2 and second-level cuts at every offset are outside the bound; back-off jitter is not owned in this (uninstrumented) build but does not influence the oracle",
         "parts": [
             {"pkg": "mcp", "mode": "plain", "test": "TestVerifC09", "shards": 16, "time_s": {"quick": 200, "thorough": 1800}},
@@ -176,7 +176,7 @@ PROPS = {
         "level": "model_checking",
         "uses_vsched": True,
         "technique": "stateless model checking of the real streamable HTTP handler under a controlled scheduler: concurrent POSTs of two sessions, every handler release order, delay-bounded schedules; every exchange's bytes attributed to its request",
-        "claim": "two sessions (same JSON-RPC ids in both) x two concurrent tools/call POSTs each, each handler sending a request-scoped progress notification and then parking on a gate released in every order, stateful SSE/JSON and stateless, plus each session's standalone stream: on every explored schedule each exchange carries exactly the response (and request-scoped notifications) of its own request, standalone streams carry only their own session's notifications and never a response; a duplicate in-flight id on one session never makes a response travel on the other POST's exchange",
+        "claim": "two sessions (same JSON-RPC ids in both) x two concurrent tools/call POSTs each, each handler sending a request-scoped progress notification and then parking on a gate released in every order, stateful SSE/JSON and stateless, plus each session's standalone stream: on every explored schedule each exchange carries exactly the response (and request-scoped notifications) of its own request, standalone streams carry only their own session's notifications and never a response; a duplicate in-flight id on one session never makes a response travel on the other POST's exchange; request A's exchange cut while its handler runs, then a sequential POST B reusing A's id (with and without an event store): B's exchange never carries A's response",
         "note": "two sessions, two requests per session; budgets B<=1 (quick) / 2 (thorough), B<=2/3 for the duplicate-id scenarios; resumed streams are covered by C08",
         "parts": [
             {"pkg": "mcp", "mode": "instr", "test": "TestVerifC10", "two_phase": True},
@@ -186,8 +186,8 @@ PROPS = {
     "C11": {
         "level": "model_checking",
         "technique": "explicit-state search over request histories against the real stateful handler under virtual time, with a reference session table checked after every step",
-        "claim": "all histories (exhaustive up to the shallow depth, state-deduplicated beyond) over 38 operations - POST initialize as anonymous/u1/u2, POST tools/call / GET / DELETE with each issued (live or dead) or an unknown session id as each user, a POST that stays in flight, handler release, server-side close, advances of timeout-1ms / 1ms / timeout: statuses (404 once dead for every method, 403 for a foreign user with no effect, 200/204 otherwise), ids minted only by initialize and never reissued, Server.Sessions() and the handler's table equal the reference set after every step, idle timeout fires iff a session had no POST in progress for a full timeout; stateless endpoint: no session ids issued or honoured, GET/DELETE/PUT answered 405",
-        "note": "two sessions, two users; DELETE/close while a POST is in flight is not explored (Close waits for the handler); histories beyond the stated depth are outside the bound",
+        "claim": "all histories (exhaustive up to the shallow depth, state-deduplicated beyond) over 38 operations - POST initialize as anonymous/u1/u2, POST tools/call / GET / DELETE with each issued (live or dead) or an unknown session id as each user, a POST that stays in flight, handler release, server-side close, DELETE / server-side close while a POST is in flight (they wait; a second DELETE may overlap; an acknowledged 204 makes the id dead at once), advances of timeout-1ms / 1ms / timeout: statuses (404 once dead for every method, 403 for a foreign user with no effect, 200/204 otherwise), ids minted only by initialize and never reissued, Server.Sessions() and the handler's table equal the reference set after every step, idle timeout fires iff a session had no POST in progress for a full timeout; stateless endpoint: no session ids issued or honoured, GET/DELETE/PUT answered 405",
+        "note": "two sessions, two users; requests other than DELETE/close on a session whose deletion is pending but not yet acknowledged are not constrained (skipped); histories beyond the stated depth are outside the bound",
         "parts": [
             {"pkg": "mcp", "mode": "plain", "test": "TestVerifC11", "shards": 1, "gomaxprocs": 16, "time_s": {"quick": 150, "thorough": 1500}},
         ],
@@ -208,7 +208,7 @@ PROPS = {
         "level": "model_checking",
         "engine": "explore (bounded-exhaustive product) under virtual time",
         "technique": "bounded-exhaustive enumeration of all ping-outcome patterns x thresholds x intervals x session kinds on real sessions against a scripted raw-wire peer, in virtual time (synctest), compared with a reference failure detector",
-        "claim": "every pattern over {answered, error, timeout, method-not-found, connection break} of length <= threshold+2, thresholds 0..3, intervals 2s/7s, client and server sessions: the session is closed iff max(threshold,1) consecutive pings failed, not before that miss completed and no later than that many intervals plus one ping timeout after the peer last answered, after exactly that many pings; never otherwise (still usable at the horizon); pings stop after method-not-found; no goroutine left after Close",
+        "claim": "every pattern over {answered, error, timeout, method-not-found, connection break, the ping's own write stalls until the ping deadline on a ctx-honouring transport} of length <= threshold+2, thresholds 0..3, intervals 2s/7s, client and server sessions: the session is closed iff max(threshold,1) consecutive pings failed, not before that miss completed and no later than that many intervals plus one ping timeout after the peer last answered, after exactly that many pings; never otherwise (still usable at the horizon); pings stop after method-not-found; no goroutine left after Close",
         "note": "patterns longer than threshold+2 and thresholds above 3 are outside the bound; the goroutine-leak oracle counts goroutines of the (sequential) worker process",
         "parts": [
             {"pkg": "mcp", "mode": "plain", "test": "TestVerifC13", "shards": 8},
